@@ -136,6 +136,9 @@ def IsTheInt (x : Num) (k : Int) : Prop :=
   | .fin n m e _ => (if n then -(m : Int) else (m : Int)) * 2 ^ e.toNat = k * 2 ^ (-e).toNat
   | .inf _ => False
 
+/-- 2^1024 − 2^970 = (2^54 − 1)·2^970: the midpoint between the largest float64 and 2^1024 -/
+def thr64 : Num := .fin false (2 ^ 54 - 1) 970 64
+
 /-! ### shapes (for "shape mismatches are refused") -/
 
 /-- does a known, non-null value of cty type `ty` have a shape the (pointer-stripped)
